@@ -49,5 +49,9 @@ CLAIMS["C08"] = {
     "text": "Bid admission as a one-directional oracle decided by the solver: the real MsgCreateBid.ValidateBasic + market CreateBid handler (with real provider and audit keepers on the store model) are executed on symbolic order state, provider registration, bidder identity, price/deposit amounts and denominations, required/own/attested attributes and all-of/any-of auditor lists; accepted implies every condition of the statement. The attribute kernel GroupSpec.MatchRequirements is checked separately against a set-based oracle with symbolic keys/values; the provider UpdateProvider handler is checked to keep covering the requirements of every active lease.",
     "note": CHAIN_NOTE + " One-directional: a stricter admission rule is not flagged. Attribute keys are concrete in the handler harness (regexp validation evaluated natively), symbolic 1-byte in the kernel.",
 }
+CLAIMS["C10"] = {
+    "text": "Symbolic execution of the real manifest/deployment cross-validation (validateManifestDeploymentGroup with the generated CPU/Memory/Storage.Equal, util.ShouldBeIngress, validateManifestDeploymentGroups) over symbolic resource units, replica counts and exposes; obligations in both directions the statement gives: accepted implies equal per-unit replica totals and equal endpoint counts, and equal totals imply the rejection is not a resource cross-validation error, whatever the split or order.",
+    "note": "Trusted: engine SSA semantics, integer model. Bounds 2x2 (thorough 3x3) records x services. The hash part of the statement (serialization-order independence, sensitivity to every field) runs through reflection-driven json.Marshal, SortJSON and SHA-256 and is NOT covered by this family; the version comparison in the manifest manager is covered with C20.",
+}
 NOT_APPLICABLE = {}
 NOTES = "Work in progress: checks are added property by property; see DESIGN.md §9 for deviations from the plan."
